@@ -56,6 +56,57 @@ def stress_signed_zero(ctx, x):
     return r + ctx.constant(0.0, x) * x
 
 
+def _h1(ctx, x):
+    t = x * x + x
+    return ctx(t * t)
+
+
+def _h2(ctx, x):
+    t = x - 3
+    return ctx(t * t + t)
+
+
+def _two_helpers(ctx, x):
+    a = _h1(ctx, x)
+    b = _h2(ctx, x)
+    r = a * b
+    return ctx(r)
+
+
+def stress_nested_helpers(ctx, x):
+    # the name `t` is wanted three times: at top level and by two plain helper functions that run
+    # inside one ctx.call frame (so both have the same origin prefix)
+    t = x + 1
+    u = ctx.call(_two_helpers, (t,))
+    res = t * u
+    return ctx(res)
+
+
+def stress_complex_parts(ctx, z):
+    # anonymous real and imaginary parts (no local names): used more than once and as the reference
+    # operand of constants, so printers must invent names for them from the argument's name
+    re = z.real * z.real - z.imag * z.imag
+    im = 2 * z.real * z.imag
+    return ctx.complex(re, im + 0.5 * z.imag)
+
+
+def stress_dunder_names(ctx, z):
+    # user variable names with double underscores
+    z__re = z.real
+    z__im = z.imag
+    re__part = z__re * 2 + z__im
+    return ctx(ctx.complex(re__part, z__im - z__re * 0.5))
+
+
+def stress_folded_constants(ctx, x):
+    # constants that the rewriter folds in the arithmetic of the declared dtype (0.5 and 1.5 are exact in
+    # every float width, so float32 / float64 / python-float requests build ==-equal constants of
+    # different types), anonymous and used more than once so that printers have to name them
+    h = ctx.constant(0.25, x) * 2
+    k = ctx.constant(0.75, x) * 2
+    return x * h + h * (x * x) + k * x + k
+
+
 def stress_shadow(ctx, x):
     # local names chosen to collide with names that library algorithms use internally
     one = ctx.constant(1, x)
@@ -73,19 +124,23 @@ def stress_hypot_user(ctx, x, y):
 
 
 STRESS = {
-    "stress_internal_names": (stress_internal_names, 2),
-    "stress_call_twice": (stress_call_twice, 1),
-    "stress_shadow": (stress_shadow, 1),
-    "stress_hypot_user": (stress_hypot_user, 2),
-    "stress_alias_locals": (stress_alias_locals, 2),
-    "stress_signed_zero": (stress_signed_zero, 1),
+    "stress_internal_names": (stress_internal_names, 2, "float"),
+    "stress_call_twice": (stress_call_twice, 1, "float"),
+    "stress_shadow": (stress_shadow, 1, "float"),
+    "stress_hypot_user": (stress_hypot_user, 2, "float"),
+    "stress_alias_locals": (stress_alias_locals, 2, "float"),
+    "stress_signed_zero": (stress_signed_zero, 1, "float"),
+    "stress_nested_helpers": (stress_nested_helpers, 1, "float"),
+    "stress_complex_parts": (stress_complex_parts, 1, "complex"),
+    "stress_dunder_names": (stress_dunder_names, 1, "complex"),
+    "stress_folded_constants": (stress_folded_constants, 1, "float"),
 }
 STRESS_SIGS = {
-    "python": [":float"],
-    "numpy": [":float32", ":float64"],
-    "stablehlo": [":float"],
-    "xla_client": [":float"],
-    "cpp": [":float32", ":float64"],
+    "python": {"float": [":float"], "complex": [":complex"]},
+    "numpy": {"float": [":float32", ":float64"], "complex": [":complex64", ":complex128"]},
+    "stablehlo": {"float": [":float"], "complex": [":complex"]},
+    "xla_client": {"float": [":float"], "complex": [":complex"]},
+    "cpp": {"float": [":float32", ":float64"], "complex": [":complex64", ":complex128"]},
 }
 
 
@@ -109,8 +164,8 @@ def build_universe(fa):
             for i, sig in enumerate(ta[func]):
                 out.append(dict(target=t, func=func, sig=[s if isinstance(s, str) else s.__name__ for s in sig], sigidx=i))
         for name in sorted(STRESS):
-            nargs = STRESS[name][1]
-            for i, ty in enumerate(STRESS_SIGS[t]):
+            _, nargs, kind = STRESS[name]
+            for i, ty in enumerate(STRESS_SIGS[t][kind]):
                 out.append(dict(target=t, func=name, sig=[ty] * nargs, sigidx=i))
     return out
 
